@@ -72,6 +72,16 @@ def gen_grammars(ctx, n, style="mixed"):
     return gs
 
 
+def extra_grammars(ctx, n):
+    """corner shapes (peglib.GGenX), each from a generator of its own so that the other grammars of the batch stay as they are"""
+    import random
+    gs = []
+    for i in range(n):
+        gg = P.GGenX(random.Random("%d/%s/x%d" % (ctx.seed, ctx.tier, i)))
+        gs.append(dict(id="x%d" % i, rules=gg.grammar(), nact=max(gg.nact, 1)))
+    return gs
+
+
 def corpus_grammars():
     """hand-written shapes: backtracking with captures/actions in failing branches and lookahead, memo revisits"""
     A = lambda k: ("act", k)
@@ -183,7 +193,7 @@ def run_core(ctx, opts=("d",), force=False):
     saved_rng = ctx.rng
     import random
     ctx.rng = random.Random(ctx.seed * 7919 + 17)
-    grammars = corpus_grammars() + gen_grammars(ctx, ngram)
+    grammars = corpus_grammars() + gen_grammars(ctx, ngram) + extra_grammars(ctx, 15 if ctx.tier == "quick" else 100)
     allopts = ["d", "i", "s", "is", "n", "ni", "ns", "nis"]
     bt = B.Batch(bd, "core", grammars, allopts)
     bt.want_vet = True
